@@ -79,7 +79,9 @@ def scan_forbidden():
     for root, _, files in os.walk(COQ):
         for f in files:
             if not f.endswith(".v") or f.startswith("Dbg_"): continue
-            for n, line in enumerate(open(os.path.join(root, f), errors="replace"), 1):
+            try: lines = open(os.path.join(root, f), errors="replace").read().split("\n")
+            except FileNotFoundError: continue      # a per-run Cases_*.v of a concurrently running check, removed meanwhile
+            for n, line in enumerate(lines, 1):
                 code = re.sub(r"\(\*.*?\*\)", "", line)
                 if pat.search(code): bad.append(f"{os.path.relpath(os.path.join(root, f), COQ)}:{n}: {line.strip()[:100]}")
     return bad
